@@ -751,6 +751,12 @@ def overwrites_stamps_and_shared_instances(ctx, workdir):
         if got != list(range(len(ids))):
             ctx.fail("two cache ids alias (a lookup returns what was stored under another id)", {"class": cls.__name__,
                      "ids": ids}, got, list(range(len(ids))))
+        # the entry's file is named as the model says: prefix, dash, the whole id, dot, suffix
+        names = ctx.driver.ask([{"op": "cache.filename", "prefix": c.fnprefix, "id": id_, "suffix": c.fnsuffix()}
+                                for id_ in ids])
+        on_disk = sorted(f for f in os.listdir(d) if f != "version")
+        if names and all(n is not None for n in names):
+            ctx.compare("cache-entry-file-names", {"class": cls.__name__, "ids": ids}, on_disk, sorted(names))
         c.purge(ids[0])
         if c.get(ids[0]) is not None or c.get(ids[1]) is None:
             ctx.fail("purging one id touched another", {"class": cls.__name__}, [c.get(ids[0]), c.get(ids[1])], [None, "kept"])
